@@ -31,7 +31,7 @@ GATES = {
 DS_FAULTS = [
     "missing-im", "all-nan-image", "int-band-names", "float-band-names", "msk-off-grid", "classif-off-grid", "segm-off-grid",
     "disparity-off-grid", "no-attr-no_data_img", "no-attr-valid_pixels", "no-attr-no_data_mask", "no-attr-crs", "no-attr-transform",
-    "no-disparity", "no-band-disp-coord", "band-disp-without-max", "band-disp-without-min", "min-gt-max-one-pixel",
+    "no-disparity", "no-band-disp-coord", "band-disp-without-max", "band-disp-without-min", "min-gt-max-one-pixel", "min-gt-max-by-half-a-pixel",
     "min-gt-max-everywhere", "size-mismatch-rows", "size-mismatch-cols",
 ]
 IN_FAULTS = [
@@ -174,11 +174,17 @@ def apply_ds_fault(ds, fault, rng, is_left):
             ds.coords["band_disp"] = names
             ds["disparity"] = xr.DataArray(data, dims=["band_disp", "row", "col"])
         return ds, True
-    if fault in ("min-gt-max-one-pixel", "min-gt-max-everywhere"):
+    if fault in ("min-gt-max-one-pixel", "min-gt-max-everywhere", "min-gt-max-by-half-a-pixel"):
         if "disparity" not in ds:
             return ds, False
         d = ds["disparity"].data.astype(np.float32).copy()
-        if fault.endswith("one-pixel"):
+        if fault.endswith("half-a-pixel"):
+            # float grids: a violation smaller than one disparity (min = max + 0.5 at one pixel, 1.75 / 1.25 at another)
+            y, x = int(rng.integers(0, H)), int(rng.integers(0, W))
+            d[0, y, x] = d[1, y, x] + 0.5
+            y2, x2 = int(rng.integers(0, H)), int(rng.integers(0, W))
+            d[:, y2, x2] = [1.75, 1.25]
+        elif fault.endswith("one-pixel"):
             y, x = int(rng.integers(0, H)), int(rng.integers(0, W))
             d[0, y, x] = d[1, y, x] + 1
         else:
